@@ -165,7 +165,9 @@ func (g *valueGen) unsupportedLeaf() genValue {
 }
 
 var fieldNames = []string{"Title", "Count", "Items", "Meta", "Flag", "Ratio", "Next", "URL", "Xy", "A", "In", "Nil", "True", "FALSE", "Loop", "Null", "None", "Undefined"}
-var mapKeys = []string{"a", "b", "name", "Name", "title", "Title", "x y", "", "é", "in", "nil", "k1", "loop", "0", "In", "IN", "Nil", "NIL", "True", "False", "null", "none", "undefined", "end", "if", "else", "each"}
+var mapKeys = []string{"a", "b", "name", "Name", "title", "Title", "x y", "", "é", "in", "nil", "k1", "loop", "0", "In", "IN", "Nil", "NIL", "True", "False", "null", "none", "undefined", "end", "if", "else", "each",
+	// quotes and backslashes inside keys: the index literal spells them, the key is found byte for byte
+	"rock\\'n\\'roll", "rock'n'roll", "it's", "say \"hi\"", "a\\b", "\\'", "\\n", "tab\there", "a.b", "a]", "[0]", "{{ k }}", "@end", "--}}"}
 
 func (g *valueGen) value(depth int) genValue {
 	r := g.r
